@@ -338,7 +338,9 @@ def strat_fit(draw, tier="quick"):
     for m in members:
         for nm, v in m["truth"].items():
             truth.setdefault(nm, v)
-    return {"members": members, "truth": truth, "minimizer": mini, "asym": draw(st.sampled_from([False, False, True])) and mini == "iminuit"}
+    return {"members": members, "truth": truth, "minimizer": mini, "asym": draw(st.sampled_from([False, False, True])) and mini == "iminuit",
+            # one parameter fixed through the multi-fit before fitting (optionally after the same value was set through a member); afterwards a member is fitted on its own
+            "fix_via": draw(st.sampled_from([None, None, "multi", "member_then_multi"])), "fix_i": draw(st.integers(0, 5)), "member_fit": draw(st.booleans())}
 
 
 def run_fit(case):
@@ -375,19 +377,35 @@ def run_fit(case):
         fits = [fs.build(m, apply_params=False) for m in members]
         multi = kafe2.MultiFit(fits, minimizer=case["minimizer"])
         multi.set_parameter_values(**start)
+    fix_nm, fix_v = None, None
+    if case.get("fix_via") and len(names) >= 2:
+        fix_nm = names[case["fix_i"] % len(names)]
+        fix_v = float(truth[fix_nm] * 1.1 + 0.05)
+        with guard("fix"):
+            if case["fix_via"] == "member_then_multi":
+                holder = next(f for f, r in zip(fits, refs) if fix_nm in r.names)
+                holder.set_parameter_values(**{fix_nm: fix_v})
+            multi.fix_parameter(fix_nm, fix_v)
     try:
         multi.do_fit(asymmetric_parameter_errors=case["asym"])
     except Exception:
         raise Discard("do_fit failed (C05/C06's subject)")
+    if fix_nm is not None:
+        with guard("values after fit"):
+            got_fixed = [float(np.asarray(multi.parameter_values, float)[names.index(fix_nm)])] + \
+                [float(np.asarray(f.parameter_values, float)[r.names.index(fix_nm)]) for f, r in zip(fits, refs) if fix_nm in r.names]
+        if any(v != fix_v for v in got_fixed):
+            raise Violation("fixed-value-after-multi-fit", f"{fix_nm} fixed at {fix_v!r} through the multi-fit ({case['fix_via']}); after do_fit the multi-fit and its members hold {got_fixed}")
     with guard("multi results"):
         mv = np.asarray(multi.parameter_values, float)
         me = np.asarray(multi.parameter_errors, float)
         mC = np.asarray(multi.parameter_cov_mat, float)
         mR = np.asarray(multi.parameter_cor_mat, float)
         ma = multi.asymmetric_parameter_errors if case["asym"] else None
-    if not np.all(np.isfinite(me)) or np.any(me <= 0):
+    free_mask = np.array([nm != fix_nm for nm in names])
+    if not np.all(np.isfinite(me)) or np.any(me[free_mask] <= 0):
         raise Discard("no finite uncertainties")
-    labels = {case["minimizer"], f"members={len(members)}"}
+    labels = {case["minimizer"], f"members={len(members)}"} | ({f"fixed_via_{case['fix_via']}"} if fix_nm else set())
     nonmono = False
     for k_, (f, r) in enumerate(zip(fits, refs)):
         idx = [names.index(nm) for nm in r.names]
@@ -415,6 +433,8 @@ def run_fit(case):
     if len(members) == 1:
         with guard("single fit"):
             solo = fs.build(dict(members[0], start={nm: start[nm] for nm in refs[0].names}), apply_params=True)
+            if fix_nm is not None:
+                solo.fix_parameter(fix_nm, fix_v)
         try:
             solo.do_fit()
         except Exception:
@@ -426,6 +446,19 @@ def run_fit(case):
         if abs(float(solo.cost_function_value) - float(multi.cost_function_value)) > 1e-3:
             raise Violation("single-member-multifit-cost", f"{float(multi.cost_function_value)!r} vs {float(solo.cost_function_value)!r}")
         labels.add("single_member")
+    if fix_nm is not None and case.get("member_fit"):
+        # a member that holds the fixed parameter is fitted on its own: the parameter is fixed there too and keeps the value
+        holder, hr = next((f, r) for f, r in zip(fits, refs) if fix_nm in r.names)
+        try:
+            holder.do_fit()
+        except Exception:
+            raise Discard("member do_fit failed (C05/C06's subject)")
+        with guard("values after member fit"):
+            hv = float(np.asarray(holder.parameter_values, float)[hr.names.index(fix_nm)])
+            mv2 = float(np.asarray(multi.parameter_values, float)[names.index(fix_nm)])
+        if hv != fix_v or mv2 != fix_v:
+            raise Violation("fixed-value-after-member-fit", f"{fix_nm} fixed at {fix_v!r} through the multi-fit; after the member's own do_fit the member holds {hv!r}, the multi-fit {mv2!r}")
+        labels.add("member_fitted_on_its_own")
     shared_par = len(names) < sum(len(r.names) for r in refs)
     if nonmono:
         labels.add("non_monotone_parameter_order")
